@@ -130,9 +130,14 @@ JV == Call1("json", AVal)
 JsonExprs == { JV, AIdx(JV, AStr(a)), AIdx(JV, AStr(bb)), AIdx(JV, AStr(<<108>>)), AIdx(AIdx(JV, AStr(<<108>>)), AInt(1)), AIdx(AIdx(JV, AStr(<<108>>)), AInt(0)),
                AIdx(AIdx(JV, AStr(<<111>>)), AStr(<<112>>)), AIdx(AIdx(AIdx(JV, AStr(<<111>>)), AStr(<<112>>)), AStr(<<122>>)), AIdx(JV, AStr(<<111>>)),
                AIdx(AIdx(AIdx(JV, AStr(<<108>>)), AInt(1)), AStr(a)) }
+JKeys == {<<106, 49>>, <<106, 50>>, <<106, 51>>, <<106, 52>>, <<106, 53>>, <<106, 54>>}
 C10Json == { [st |-> Select(<<F(AKey, ""), F(e, "")>>, ABin("^=", AKey, AStr(<<106>>)), <<>>, <<>>, NoLim), sid |-> "J"] : e \in JsonExprs }
+           \cup { [st |-> Select(<<F(AKey, ""), F(e, "")>>, ABin("=", AKey, AStr(k)), <<>>, <<>>, NoLim), sid |-> "J"] : e \in JsonExprs, k \in JKeys }
            \cup { [st |-> Select(<<>>, w, <<>>, <<>>, NoLim), sid |-> "J"] :
                      w \in { ABin("=", AIdx(JV, AStr(bb)), AStr(<<120>>)), ABin("^=", AIdx(AIdx(JV, AStr(<<111>>)), AStr(<<112>>)), AStr(<<113>>)) } }
+           \cup { [st |-> Select(<<>>, ABin("&", ABin("=", AKey, AStr(<<106, 49>>)), w), <<>>, <<>>, NoLim), sid |-> "J"] :
+                     w \in { ABin("=", AIdx(JV, AStr(bb)), AStr(<<120>>)), ABin("^=", AIdx(AIdx(JV, AStr(<<111>>)), AStr(<<112>>)), AStr(<<113>>)),
+                              ABin("!=", AIdx(AIdx(JV, AStr(<<111>>)), AStr(<<112>>)), AStr(<<122>>)) } }
 C10Cases == C10Fields \cup C10Preds \cup C10Json
 
 \* values for the function families: comma lists, numbers, mixed case
@@ -214,7 +219,12 @@ C07Aggr == { [st |-> Select(AggFields, ABin("!=", AVal, AStr(<<120>>)), ov, <<1>
                 ov \in { <<O(2, d1)>> : d1 \in BOOLEAN } \cup { <<O(3, d1)>> : d1 \in BOOLEAN } \cup { <<O(2, d1), O(4, d2)>> : d1 \in BOOLEAN, d2 \in BOOLEAN } \cup { <<O(1, TRUE)>> } }
            \cup { [st |-> Select(AggFieldsV, ABin("!=", AVal, AStr(<<120>>)), ov, <<1>>, NoLim), sid |-> "O"] :
                 ov \in { <<O(2, d1)>> : d1 \in BOOLEAN } \cup { <<O(3, d1), O(1, FALSE)>> : d1 \in BOOLEAN } }
-C07Cases == C07Plain \cup C07Aggr
+StoreM == << SP(<<97, 49>>, Dig(1)), SP(<<97, 50>>, Dig(2)), SP(<<98, 49>>, <<49, 46, 53>>), SP(<<98, 50>>, Dig(2)), SP(<<99, 49>>, Dig(3)),
+             SP(<<100, 49>>, <<48, 46, 53>>), SP(<<100, 50>>, Dig(2)), SP(<<101, 49>>, Dig(2)), SP(<<102, 49>>, <<50, 46, 53>>), SP(<<103, 49>>, <<51, 46, 53>>) >>
+C07Mixed == { [st |-> Select(AggFieldsV, All, ov, <<1>>, NoLim), sid |-> "M"] :
+                ov \in { <<O(2, d1)>> : d1 \in BOOLEAN } \cup { <<O(3, d1)>> : d1 \in BOOLEAN } \cup { <<O(2, d1), O(1, d2)>> : d1 \in BOOLEAN, d2 \in BOOLEAN } }
+            \cup { [st |-> Select(<<F(AKey, ""), F(AVal, "")>>, All, <<O(2, d1)>>, <<>>, NoLim), sid |-> "M"] : d1 \in BOOLEAN }
+C07Cases == C07Plain \cup C07Aggr \cup C07Mixed
 
 -----------------------------------------------------------------------------
 (* c09: GROUP BY and aggregates *)
@@ -263,6 +273,10 @@ C05Stmts == {
   Select(<<F(AKey, ""), NV>>, ABetween(AName("n"), AInt(2), AInt(7)), <<>>, <<>>, NoLim),
   Select(<<F(AKey, ""), F(Call2("split", AVal, AStr(<<44>>)), "parts")>>, ABin("in", AStr(<<49>>), AName("parts")), <<>>, <<>>, NoLim),
   Select(<<F(AKey, ""), NV>>, ABin("|", ABin("=", AName("n"), AInt(1)), ABin("=", AKey, AStr(bb))), <<>>, <<>>, NoLim),
+  Select(<<F(AKey, ""), NV>>, ABin("|", ABin("=", AKey, AStr(bb)), ABin("=", AName("n"), AInt(1))), <<>>, <<>>, NoLim),
+  Select(<<F(AKey, ""), NV, UV>>, ABin("or", ABin("^=", AKey, AStr(c1)), ABin("&", ABin("<", AName("n"), AInt(2)), ABin("!=", AName("u"), AStr(<<>>)))), <<>>, <<>>, NoLim),
+  Select(<<F(AKey, ""), UV>>, ABin("|", ABin("=", AKey, AStr(abc)), ABin("=", AName("u"), AStr(<<49>>))), <<>>, <<>>, NoLim),
+  Select(<<NV, F(AKey, "k")>>, ABin("&", ABin("!=", AName("k"), AStr(a)), ABin("|", ABin("=", AName("k"), AStr(dd)), ABin(">", AName("n"), AInt(2)))), <<>>, <<>>, NoLim),
   Select(<<F(AKey, ""), NV>>, ABin("&", ABin("^=", AKey, AStr(a)), ABin(">", AName("n"), AInt(1))), <<>>, <<>>, NoLim),
   Select(<<F(AKey, ""), NV>>, ABin("&", AIn(AKey, <<AStr(a), AStr(abc), AStr(c1), AStr(dd)>>), ABin(">", AName("n"), AInt(1))), <<>>, <<>>, NoLim),
   Select(<<F(AKey, ""), NV>>, ABin("&", ABin(">", AKey, AStr(a)), ABin("!=", AName("n"), AInt(3))), <<>>, <<>>, NoLim),
@@ -272,8 +286,8 @@ C05Cases == { [st |-> st, sid |-> sid] : st \in C05Stmts, sid \in {"I", "S7", "S
 
 -----------------------------------------------------------------------------
 StoreOf(sid) == CASE sid = "T" -> StoreT [] sid = "I" -> StoreI [] sid = "F" -> StoreF [] sid = "E" -> <<>>
-                  [] sid = "J" -> StoreJ [] sid = "O" -> StoreO [] sid = "G" -> StoreG [] sid = "V" -> StoreV [] sid = "S40" -> SeqStore(40) [] sid = "S7" -> SeqStore(7) [] sid \in {SizeId(n) : n \in 0..100} -> SeqStore(CHOOSE n \in 0..100 : SizeId(n) = sid) [] OTHER -> <<>>
-StoreIds == {"T", "I", "F", "E", "J", "V", "O", "G", "S40", "S7"} \cup {SizeId(n) : n \in SizesSmall \cup SizesBig}
+                  [] sid = "J" -> StoreJ [] sid = "O" -> StoreO [] sid = "M" -> StoreM [] sid = "G" -> StoreG [] sid = "V" -> StoreV [] sid = "S40" -> SeqStore(40) [] sid = "S7" -> SeqStore(7) [] sid \in {SizeId(n) : n \in 0..100} -> SeqStore(CHOOSE n \in 0..100 : SizeId(n) = sid) [] OTHER -> <<>>
+StoreIds == {"T", "I", "F", "E", "J", "V", "O", "G", "M", "S40", "S7"} \cup {SizeId(n) : n \in SizesSmall \cup SizesBig}
 
 Cases == CASE Mode = "c01" -> C01Cases [] Mode = "c10" -> C10Cases [] Mode = "c04" -> C04Cases [] Mode = "c08" -> C08Select [] Mode = "c08d" -> C08Delete [] Mode = "c07" -> C07Cases [] Mode = "c09" -> C09Cases [] Mode = "c05" -> C05Cases [] OTHER -> {}
 
